@@ -13,7 +13,31 @@ def run(cmd, cwd, timeout=1800):
     p = subprocess.run(cmd, cwd=cwd, env=ENV, stdout=subprocess.PIPE, stderr=subprocess.STDOUT, text=True, timeout=timeout)
     return p.returncode, p.stdout
 
+def recheck():
+    sid = sys.argv[2]
+    checks = sys.argv[3:]
+    out = f"/verif/seeded/{sid}"
+    meta = json.load(open(f"{out}/meta.json"))
+    st = subprocess.run(["git", "-C", "/repo", "status", "--porcelain"], stdout=subprocess.PIPE, text=True).stdout
+    if st.strip():
+        print("refusing: /repo not clean"); sys.exit(2)
+    subprocess.check_call(["git", "-C", "/repo", "apply", f"{out}/patch.diff"])
+    meta["checks"] = {}
+    try:
+        for c in checks:
+            t0 = time.time()
+            rc, o = run(["/verif/check", c, "quick"], "/verif", timeout=3600)
+            viol = [l for l in o.splitlines() if l.startswith("VIOLATION")]
+            inc = [l for l in o.splitlines() if l.startswith("INCONCLUSIVE")]
+            meta["checks"][c] = {"exit": rc, "violations": len(viol), "inconclusive": len(inc), "first": (viol + inc + [""])[0][:300], "wall_s": round(time.time() - t0, 1)}
+    finally:
+        subprocess.check_call(["git", "-C", "/repo", "checkout", "--", "."])
+    json.dump(meta, open(f"{out}/meta.json", "w"), indent=1)
+    print(sid, {k: (v["exit"], v["violations"], v["inconclusive"]) for k, v in meta["checks"].items()})
+
 def main():
+    if sys.argv[1] == "--recheck":
+        return recheck()
     sid, wt = sys.argv[1], sys.argv[2]
     checks = sys.argv[3:]
     out = f"/verif/seeded/{sid}"
